@@ -57,7 +57,23 @@ EigenEquation == \A k \in 1..M : MatVec(T, Col(F, k)) = VScale(Ev(sp)[k], Col(F,
 Diagonalised == Mul(Finv, Mul(T, F)) = Diag(Ev(sp))
 TraceLaw == ISum([k \in 1..M |-> T[k][k]]) = ISum(Ev(sp))
 
-Obs == [m |-> M, T |-> T, evals |-> Ev(sp), evecs |-> [k \in 1..M |-> Col(F, k)], len |-> len]
+\* eigenvalues of the OTHER spectra that T lacks: T - c 1 is invertible, with the explicit inverse
+\* F diag(prod_{j # k} (d_j - c)) F^-1 / prod_k (d_k - c), so no non-zero vector is mapped to c times itself (a composite
+\* asked for c must report the degenerate zero point for this member).  32-bit guard: small matrices and entries.
+AllValues == UNION {{Spectra[s][a] : a \in 1..M} : s \in 1..Len(Spectra)}
+Absent == {c \in AllValues : \A a \in 1..M : Ev(sp)[a] # c}
+RECURSIVE ProdExcept(_, _, _, _)
+ProdExcept(e, c, k, a) == IF a = 0 THEN 1 ELSE (IF a = k THEN 1 ELSE e[a] - c) * ProdExcept(e, c, k, a - 1)
+SmallT == M <= 4 /\ \A r, q \in 1..M : Abs(T[r][q]) <= 300 /\ Abs(F[r][q]) <= 40 /\ Abs(Finv[r][q]) <= 40
+AbsentHasNoEigenvector ==
+  SmallT => \A c \in Absent :
+              LET e == Ev(sp)
+                  shifted == TLCEval([r \in 1..M |-> TLCEval([q \in 1..M |-> T[r][q] - (IF r = q THEN c ELSE 0)])])
+                  cof == Mul(Mul(F, Diag([k \in 1..M |-> ProdExcept(e, c, k, M)])), Finv)
+                  det == ProdExcept(e, c, 0, M)
+              IN det # 0 /\ Mul(shifted, cof) = TLCEval([r \in 1..M |-> TLCEval([q \in 1..M |-> IF r = q THEN det ELSE 0])])
+
+Obs == [m |-> M, absent |-> Absent, T |-> T, evals |-> Ev(sp), evecs |-> [k \in 1..M |-> Col(F, k)], len |-> len]
 EmitObs == PrintT("OBS " \o ToJson(Obs))
 View == <<F, sp, len>>
 =============================================================================
